@@ -131,6 +131,12 @@ def run_c01(ctx):
         ctx.violations += judge_sources(ctx, cfg, sample, ops=('pv',), srcs=['s', 'b', 'r1', 'rx5'], what_prefix='c01-')
         # depth clause: 127 levels accepted, 128 rejected, for every bracket mix
         ctx.violations += judge_depth(ctx, cfg)
+    for cfg in [c for c in getattr(ctx, 'side_cfgs', []) if c == 'fr' and c not in ctx.cfgs]:
+        # float_roundtrip as a side configuration of the quick tier: the long-mantissa / long-exponent number paths exist only there
+        lits = gen.number_literals(ctx.rng, 1500)
+        docs = lits + [b'[' + x + b']' for x in lits[::7]]
+        ctx.violations += judge_c01(ctx, cfg, docs)
+        ctx.violations += judge_state_isolation(ctx, cfg, 800)
     ctx.violations += judge_private_tokens(ctx, acceptance_only=True)
 
 # ---- the private token keys (finding F23): with arbitrary_precision / raw_value an object whose FIRST key is the crate's private token is not read as an object
@@ -1183,7 +1189,7 @@ def run_c19(ctx):
 PARSER_TB = ['modelled, not verified: std::io::Bytes (one-byte reads, Interrupted retried), memchr, str::from_utf8, BTreeMap/IndexMap insert, rustc float literal parsing (POW10), IEEE arithmetic of f64 (Flocq model)',
              'the three readers are abstracted to one cursor (rest, off, peeked) — tied by running str/slice/reader sources with chunk schedules']
 
-register('C01', cfgs={'quick': ['def'], 'thorough': ['def', 'ap', 'fr', 'ud']}, side_cfgs=['ap', 'raw'], run=run_c01, judge=judge_c01, extended=run_c01, trusted_base=PARSER_TB)
+register('C01', cfgs={'quick': ['def'], 'thorough': ['def', 'ap', 'fr', 'ud']}, side_cfgs=['ap', 'raw', 'fr'], run=run_c01, judge=judge_c01, extended=run_c01, trusted_base=PARSER_TB)
 register('C02', cfgs={'quick': ['def', 'po'], 'thorough': ['def', 'po', 'fr', 'ap']}, side_cfgs=['ap', 'raw', 'fr'], run=run_c02, judge=judge_c02, extended=run_c02, trusted_base=PARSER_TB)
 register('C09', cfgs={'quick': ['def'], 'thorough': ['def', 'raw', 'ap', 'fr', 'po', 'ud']}, run=run_c09, judge=judge_c09, extended=run_c09, trusted_base=PARSER_TB)
 register('C10', cfgs={'quick': ['def', 'raw'], 'thorough': ['def', 'raw', 'ap']}, run=run_c10, judge=None, extended=run_c10, trusted_base=PARSER_TB)
